@@ -24,8 +24,8 @@ ASSUMPTIONS = [
     "logging macros evaluate their arguments and do nothing else (include/override/soundswallower/err.h)",
 ]
 HAND_LEMMAS = []
-NOT_COVERED = ["arbitrary in-protocol API sequences over the whole decoder object graph (no representation invariant for acmod/lextree/dictionary is within reach)", "leak freedom after the last release", "iterator life cycles (seg/hash/alignment iterators): bounded checks exist only for the hash table (C20)", "decoder_alignment, decoder_nbest, decoder_result_json guards"]
+NOT_COVERED = ["arbitrary in-protocol API sequences over the whole decoder object graph (no representation invariant for acmod/lextree/dictionary is within reach)", "leak freedom after the last release", "iterator life cycles (seg/hash/alignment iterators): bounded checks exist only for the hash table (C20)", "decoder_alignment, decoder_nbest, decoder_result_json guards", "the items above are NOT under contract; they are exercised only by the bounded native runs protocol_walk (60 random walks, ASan + LeakSanitizer) and e2e_invariants -- never counted as proved"]
 CLAIM = dict(
     text="Typestate contracts on the public decoder entry points: with the decoder and acoustic-model objects fully symbolic, audio passed before start or after end is refused with the documented value and an empty frame (no callee reached, nothing assigned); starting twice and ending without start return -1 with an empty frame; hypothesis, segmentation and lattice requests without a search module return NULL. Reference counting of the alignment object over its dict2pid: alignment_init takes exactly one counted reference, alignment_free gives it back exactly when the last reference to the alignment is dropped (ghost call counters). Proved per entry point (loop-free in the selected case, full domain). The general statement over every API sequence is NOT decided.",
-    note="guards only; in-protocol behaviour, leaks, iterator life cycles and reference counting not covered; one genuine defect (audio accepted after end_utt) found and fixed; trusted: CBMC 6.11; end-to-end invariants on ~12 real decodes by a bounded native run (native/e2e_invariants.c), never counted as proved",
+    note="guards only; in-protocol behaviour, leaks, iterator life cycles and reference counting not covered; one genuine defect (audio accepted after end_utt) found and fixed; trusted: CBMC 6.11; end-to-end invariants on ~12 real decodes by a bounded native run (native/e2e_invariants.c), never counted as proved; random API walks under ASan + LeakSanitizer (native/protocol_walk.c) as bounded stand-in for arbitrary sequences and leak freedom",
     technique="CBMC function contracts (goto-instrument --dfcc) with empty assigns clauses; callee reachability as obligations; plus a bounded native run of the property's end-to-end invariants on real decodes (safety net, not proof)")
